@@ -869,7 +869,9 @@ def make_numba(interp):
     ext = StubModule("numba.extending", {"register_jitable": _identity_decorator, "overload": lambda *a, **k: (lambda f: Opaque("overload")), "is_jitted": lambda f: False})
     attrs = {
         "prange": prange, "njit": _identity_decorator, "jit": _identity_decorator, "generated_jit": _identity_decorator,
-        "extending": ext, "literal_unroll": lambda x: x, "typed": Opaque("nb.typed"), "types": Opaque("nb.types"),
+        "extending": ext, "literal_unroll": lambda x: x, "typed": Opaque("nb.typed"),
+        # numba types as far as `isinstance(arg, nb.types.X)` in typed dispatch needs them: an omitted / None argument
+        "types": StubModule("nb.types", {"NoneType": TypeTag("NoneType", None), "Omitted": TypeTag("NoneType", None)}),
         "typeof": lambda x: Opaque("typeof"), "errors": Opaque("nb.errors"), "core": Opaque("nb.core"), "config": Opaque("nb.config"),
     }
     return StubModule("numba", attrs)
